@@ -5,6 +5,7 @@
    matches iff one of the individual regexes does is the regex crate's contract (trusted; see
    the known finding about a set containing an uncompilable member). *)
 From Adb Require Import Base Generated Hashing Net_Model Net_Proofs C05_Model C05_Proofs.
+From Adb Require Struct_Opt_Proofs.
 
 (* a fused rule matches exactly when one of its members does *)
 Theorem C05_fusion_hit : forall om pm tags g fz,
@@ -103,3 +104,31 @@ Theorem C05_removeparam_hits_unchanged : forall h L T matches pr,
   = removeparam_hits matches pr (tags_with_set h (blocker_new h L) T).
 Proof. exact removeparam_hits_unchanged. Qed.
 Print Assumptions C05_removeparam_hits_unchanged.
+
+(* ---- src/optimizer.rs itself, as the translator extracts it on every run (Generated.OptGen),
+   interpreted over the model's rules: it IS the model's select / grouping key / fusion ---- *)
+Theorem C05_src_select_is_model :
+  forall f : rule, Struct_Opt_Proofs.interp_select f = opt_select f.
+Proof. exact Struct_Opt_Proofs.interp_select_is_model. Qed.
+Print Assumptions C05_src_select_is_model.
+
+Theorem C05_src_group_key_is_model :
+  forall f g : rule, Struct_Opt_Proofs.interp_same_key f g = Some (same_key f g).
+Proof. exact Struct_Opt_Proofs.interp_same_key_is_model. Qed.
+Print Assumptions C05_src_group_key_is_model.
+
+Theorem C05_src_group_key_has_mask_and_tag :
+  existsb (String.eqb "mask"%string) OptGen.group_key = true /\
+  existsb (String.eqb "tag"%string) OptGen.group_key = true.
+Proof. exact Struct_Opt_Proofs.key_has_mask_and_tag. Qed.
+Print Assumptions C05_src_group_key_has_mask_and_tag.
+
+Theorem C05_src_fusion_is_model :
+  forall g : list rule, Struct_Opt_Proofs.interp_fusion g = fusion g.
+Proof. exact Struct_Opt_Proofs.interp_fusion_is_model. Qed.
+Print Assumptions C05_src_fusion_is_model.
+
+Theorem C05_src_apply_structure :
+  OptGen.fuse_groups_larger_than = 1%N /\ OptGen.optimize_final_sort = "id"%string.
+Proof. exact Struct_Opt_Proofs.apply_structure_is_model. Qed.
+Print Assumptions C05_src_apply_structure.
